@@ -195,18 +195,27 @@ func (s *initialCryptoStream) Write(p []byte) (int, error) {
 			return len(p), nil
 		}
 		s.end = protocol.ByteCount(len(s.writeBuf))
-		s.cuts[0].start = protocol.ByteCount(sniPos + sniLen/2) // right in the middle
-		s.cuts[0].end = protocol.ByteCount(sniPos + sniLen)
+		// cuts[0] being set is what tells HasData that the ClientHello is complete and the cuts are
+		// known: without an SNI the ECH cut has to go there
+		next := 0
+		if sniPos != -1 {
+			s.cuts[0].start = protocol.ByteCount(sniPos + sniLen/2) // right in the middle
+			s.cuts[0].end = protocol.ByteCount(sniPos + sniLen)
+			next = 1
+		}
 		if echPos > 0 {
 			// ECH extension found, cut the ECH extension type value (a uint16) in half
 			start := protocol.ByteCount(echPos + 1)
-			s.cuts[1].start = start
+			s.cuts[next].start = start
 			// cut somewhere (16 bytes), most likely in the ECH extension value
-			s.cuts[1].end = min(start+16, s.end)
+			s.cuts[next].end = min(start+16, s.end)
 		}
 		slices.SortFunc(s.cuts[:], func(a, b clientHelloCut) int {
 			if a.start == protocol.InvalidByteCount {
 				return 1
+			}
+			if b.start == protocol.InvalidByteCount {
+				return -1
 			}
 			if a.start > b.start {
 				return 1
